@@ -24,6 +24,8 @@ def main(prop, finding, kinds):
                     fps.add(v["fingerprint"])
     os.makedirs(os.path.join(common.VERIF, "known"), exist_ok=True)
     path = os.path.join(common.VERIF, "known", finding + ".fingerprints")
+    if os.path.exists(path) and "--replace" not in sys.argv:
+        fps.update(l.strip() for l in open(path) if l.strip())
     open(path, "w").write("\n".join(sorted(fps)) + "\n")
     print(path, len(fps))
 
